@@ -23,7 +23,7 @@ import time
 from hypothesis import strategies as st
 
 ENDS = ['NONE', 'CONTINUE', 'FAIL_AND_CONTINUE', 'SKIP', 'REPEAT', 'STOP', 'FAIL_SUBTEST', 'INVALID', 'INVALID_FALSE',
-        'INVALID_ZERO', 'INVALID_EMPTY', 'RAISE_A', 'RAISE_A2', 'RAISE_B', 'RAISE_O', 'RAISE_BADSTR', 'BLOCK']
+        'INVALID_ZERO', 'INVALID_EMPTY', 'RAISE_A', 'RAISE_A2', 'RAISE_B', 'RAISE_O', 'RAISE_BADSTR', 'EXIT', 'BLOCK']
 INVALID_VALUES = {'INVALID': 42, 'INVALID_FALSE': False, 'INVALID_ZERO': 0, 'INVALID_EMPTY': ''}
 CONDS = ['ALL', 'ANY', 'NOT_ANY', 'NOT_ALL']
 NRES = 4
@@ -158,7 +158,7 @@ def _behaviour(draw, meas, in_subtest, timeout_phase, simple=False):
   else:
     end = _weighted(draw, [('NONE', 22), ('CONTINUE', 8), ('FAIL_AND_CONTINUE', 6), ('SKIP', 4), ('REPEAT', 4), ('STOP', 3),
                            ('FAIL_SUBTEST', 8 if in_subtest else 1), ('INVALID', 1), ('INVALID_FALSE', 1), ('INVALID_ZERO', 1),
-                           ('INVALID_EMPTY', 1), ('RAISE_A', 2), ('RAISE_A2', 1), ('RAISE_B', 1), ('RAISE_O', 2), ('RAISE_BADSTR', 1)])
+                           ('INVALID_EMPTY', 1), ('RAISE_A', 2), ('RAISE_A2', 1), ('RAISE_B', 1), ('RAISE_O', 2), ('RAISE_BADSTR', 1), ('EXIT', 1)])
   sets = {}
   for name in meas:
     v = _weighted(draw, [('p', 14), ('f', 4), (None, 2), ('x', 1), ('px', 1)])
@@ -534,6 +534,8 @@ def _mk_body(node, ctx, htf):
       raise ExcB('boom B p%d' % pid)
     if end == 'RAISE_O':
       raise ExcO('boom O p%d' % pid)
+    if end == 'EXIT':
+      sys.exit('p%d: giving up' % pid)       # SystemExit: a BaseException that is not an Exception
     return getattr(htf.PhaseResult, end)
 
   body.__name__ = 'p%d' % pid
